@@ -562,27 +562,35 @@ def r2_termination(repo, rep, closure):
             and norm(n.ast.targets[0]) == flag and au.is_const(n.ast.value, False)}
   first = [m for m, lab in g.succ[fb_entry] if lab == 'true']
   n_paths = 0
-  for path in g.enumerate_paths(first[0], lambda n: n is head, cfgmod.no_exc, back_limit=0) if first else []:
-    nodes = [n for n, lab in path]
-    if any(n in clears for n in nodes):
-      continue
-    if any(n.kind == 'for' for n in nodes[:-1]) and False:
-      continue
-    n_paths += 1
-    rep.analysed['paths'] += 1
-    # need a strict comparison between scores taken true on this path, guarding a rebinding
-    strict = False
-    for i, (n, lab) in enumerate(path[:-1]):
-      if n.kind == 'test' and path[i + 1][1] == 'true':
-        c = n.expr
-        if isinstance(c, ast.Compare) and len(c.ops) == 1 and isinstance(c.ops[0], (ast.Gt, ast.Lt)):
-          strict = True
-    rebind = [n for n in nodes if n.kind == 'stmt' and isinstance(n.ast, ast.Assign)]
-    rep.check(strict and bool(rebind), 'R2/termination', 'matching branch repeats only after a strict score improvement', f.qualname,
-              'path ' + ' -> '.join(n.text()[:30] for n in nodes[:6]),
-              'the matching branch can repeat without clearing %s and without a strict (>) score improvement: with equal scores the loop never ends' % flag, f.loc(fb))
+  # deciding tests: a test inside the matching branch one of whose out-branches can return to the loop head without clearing the flag
+  branch_nodes = g.reachable(first[0], lambda a, b, lab: lab != 'exc' and b is not head) if first else set()
+  for tnode in [n for n in branch_nodes if n.kind == 'test']:
+    for m, lab in g.succ[tnode]:
+      if lab not in ('true', 'false'):
+        continue
+      if m in clears:
+        continue
+      escapes = m is head or g.path_avoiding(m, lambda z: z is head, lambda z: z in clears, cfgmod.no_exc) is not None
+      other = [x for x, l2 in g.succ[tnode] if l2 in ('true', 'false') and l2 != lab]
+      other_clears = bool(other) and (other[0] in clears or (other[0] is not head and
+                                      g.path_avoiding(other[0], lambda z: z is head, lambda z: z in clears, cfgmod.no_exc) is None))
+      if not (escapes and other_clears):
+        continue
+      n_paths += 1
+      rep.analysed['paths'] += 1
+      dnf = pathcond.literals(tnode.expr, lab == 'true')
+      strict = len(dnf) == 1 and len(dnf[0]) == 1
+      if strict:
+        e, tr = dnf[0][0]
+        strict = isinstance(e, ast.Compare) and len(e.ops) == 1 and (
+            (tr and isinstance(e.ops[0], (ast.Gt, ast.Lt))) or ((not tr) and isinstance(e.ops[0], (ast.GtE, ast.LtE))))
+      rep.check(strict, 'R2/termination', 'matching repeats only after a strict score improvement (`%s` %s)' % (norm(tnode.expr)[:50], lab), f.qualname,
+                'repeat matching when %s%s' % ('' if lab == 'true' else 'not ', norm(tnode.expr)[:80]),
+                'the matching branch repeats (without clearing %s) when `%s` is %s, which is not a strict improvement: with equal scores the loop never ends'
+                % (flag, norm(tnode.expr)[:80], lab), f.loc(tnode.expr))
   # paths through for-loops inside the branch were cut by back_limit=0; examine the branch tail separately
-  rep.extra['greedy_flag_branch_paths_without_clear'] = n_paths
+  rep.extra['greedy_repeat_deciding_tests'] = n_paths
+  rep.floor('deciding tests of the matching repetition', n_paths, 1)
   sets_true = [n for n in loopnodes if n.kind == 'stmt' and isinstance(n.ast, ast.Assign) and norm(n.ast.targets[0]) == flag and au.is_const(n.ast.value, True)]
   for n in sets_true:
     # the flag is re-armed only together with an increment of the counter (same straight-line block)
